@@ -31,6 +31,8 @@ class Opts:
         self.roundtrippable = True     # keep every variable part delimited
         self.hazard_free = False       # avoid the constructs of the known decoder hazards
         self.copy_parents = True       # parents hold only Copy data fields (H26)
+        self.greedy_structs = False    # structs never end with an undelimited array
+        self.struct_payload = True     # structs may carry a size-delimited payload
         self.__dict__.update(kw)
 
     @staticmethod
@@ -189,6 +191,8 @@ class Gen:
             items.insert(pos, "payload")
         # only the last dynamic item may be undelimited
         last_var = max([i for i, k in enumerate(items) if k in ("array", "payload")] or [-1])
+        if (not allow_payload or tail_static) and not o.greedy_structs:
+            tail_static = True      # a struct: keep every array delimited
         for idx, kind in enumerate(items):
             is_last_var = idx == last_var and not tail_static
             after_static = all(k in ("chunk", "custom") for k in items[idx + 1:])
@@ -353,7 +357,13 @@ class Gen:
         name = self.fresh("St")
         for _ in range(20):
             force = ["array"] if dynamic else None
-            fields, info = self.gen_fields(depth, allow_payload=False, force=force)
+            if dynamic and self.o.struct_payload and self.rng.random() < 0.35:
+                # a struct with a size-delimited payload (dynamic, not greedy)
+                fields, info = self.gen_fields(depth, allow_payload=True, must_payload=True, tail_static=True,
+                                               force=["chunk"])
+                self.features.add("struct_payload")
+            else:
+                fields, info = self.gen_fields(depth, allow_payload=False, force=force)
             if info["static"] != dynamic and info["minlen"] > 0:
                 break
             if dynamic and info["static"]:
@@ -430,7 +440,9 @@ class Gen:
                         continue
                     alias_used = True
                     self.features.add("inherit_alias")
-                want_payload = level < depth and rng.random() < 0.6
+                # an unconstrained child has no children of its own: its descendants' constraints
+                # would overlap with its siblings' (semantically ambiguous description)
+                want_payload = level < depth and rng.random() < 0.6 and bool(cons)
                 if rng.random() < 0.3 and not want_payload:
                     nbytes = rng.choice([1, 2, 3, 4])
                     fs = ["%s: %d" % (self.fresh("s"), 8 * nbytes)]
